@@ -11,7 +11,7 @@ META = {
              'entry point (method, put, attribute/view assignment, view slice, replace/remove on the child, insert/append/extend/prepend/prextend): the field extracted '
              'from the live tree must equal the Python list model old[:a] + new + old[b:] computed with slice().indices(); the rest of the tree (dump with the field '
              'blanked) must be unchanged; all entry points of a class and LAYOUT variants of the target must end in the same structure; a refusal is accepted only for '
-             'reversed bounds, NotImplementedError, or when the model result is not valid Python. A cell is (kind, op class, entry point, bounds class).'),
+             'reversed bounds, NotImplementedError, or when the model result is not valid Python. A cell is (kind, op class, entry point, bounds class). LAYOUT variants include a \'staircase\' (each element on its own line, indented less than the one before); on every layout the arglike virtual fields also get single-element puts that switch an element between positional and keyword, followed by the in-sync oracle.'),
     'budget': {'quick': 45, 'thorough': 600},
     'floors': {'quick': {'model_checked': 15000, 'entry_point_classes': 1500, '#cells': 400},
                'thorough': {'model_checked': 150000, 'entry_point_classes': 15000, '#cells': 500}},
